@@ -623,14 +623,27 @@ class Gen:
             cand = [c for c in cand if not st.has_null(c)]
         if not cand:
             return None
+        want_limit = rng.random() < 0.45
+        if want_limit:
+            # which rows a limit keeps is decided by the order keys: a key two engines compute with different last bits
+            # (tanh(19) is 1.0 in numpy, 0.99999999999999989 elsewhere) makes the cut ill-conditioned
+            tt = tainted_columns(st.node)
+            cand2 = [c for c in cand if "*" not in tt and c not in tt]
+            if cand2:
+                cand = cand2
+            else:
+                want_limit = False
+                self.cnt("limit_over_inexact_keys_avoided")
         k = rng.randint(1, min(3, len(cand)))
         cols = rng.sample(cand, k)
         rev = [c for c in cols if rng.random() < 0.35]
         limit = None
-        if rng.random() < 0.45:
+        if want_limit:
             tot = st.nrows() == 0 or not st.frame.duplicated(subset=cols, keep=False).any()
             if not tot:
                 order = self.total_order(st, [], 3)
+                if order and any(c in tt for c in order):
+                    order = None
                 if order:
                     cols = order
                     rev = [c for c in cols if rng.random() < 0.35]
